@@ -218,8 +218,8 @@ impl Rank {
         Self(buf)
     }
 
-    fn count_zeros(&self) -> u32 {
-        self.0.iter().copied().map(u64::count_zeros).sum()
+    fn count_ones(&self) -> u32 {
+        self.0.iter().copied().map(u64::count_ones).sum()
     }
 
     fn is_all_zeros(&self) -> bool {
@@ -264,9 +264,11 @@ impl BitOrAssign<&Rank> for Rank {
     fn bitor_assign(&mut self, rhs: &Self) {
         let missing = rhs.0.len().saturating_sub(self.0.len());
         self.0.insert_from_slice(0, &rhs.0.as_slice()[..missing]);
+        // words are stored most significant first, so align the two at the end
         self.0
             .iter_mut()
-            .zip(rhs.0.iter())
+            .rev()
+            .zip(rhs.0.iter().rev())
             .for_each(|(base, val)| *base |= *val);
     }
 }
@@ -304,7 +306,9 @@ pub fn overlay_feature_variations(
 
     let mut items = Vec::new();
     let mut sorted = boxmap.into_iter().collect::<Vec<_>>();
-    sorted.sort_by_key(|(_, rank)| rank.count_zeros());
+    // most contributing rules first; the number of *zero* bits depends on how many
+    // words a rank happens to have, the number of one bits does not
+    sorted.sort_by_key(|(_, rank)| std::cmp::Reverse(rank.count_ones()));
     for (box_, mut rank) in sorted {
         if rank.is_all_zeros() {
             continue;
